@@ -185,16 +185,22 @@ static void *helper(void *a) {
 	}
 	return NULL;
 }
+// bounded waits: generous (they only bound how long a broken library is waited for) and scaled by C19_SLOW for the
+// isolated re-run that lib/props/c19.py makes before a `stuck` / hang becomes a verdict
+static int g_slow = 1;
 static int wait_until(_Atomic int *v, int atleast, int ms) {
+	ms *= 4 * g_slow;
 	for (int i = 0; i < ms * 20; i++) { if (atomic_load(v) >= atleast) return 1; usleep(50); }
 	return atomic_load(v) >= atleast;
 }
 static int wait_zero(_Atomic int *v, int ms) {
+	ms *= 4 * g_slow;
 	for (int i = 0; i < ms * 20; i++) { if (atomic_load(v) <= 0) return 1; usleep(50); }
 	return atomic_load(v) <= 0;
 }
 static int performed(round_t *r) { return r->released ? r->sv_perf : *(volatile int *)&r->dbpd->dbpd_performed; }
 static int wait_performed(round_t *r, int n, int ms) {
+	ms *= 4 * g_slow;
 	for (int i = 0; i < ms * 20; i++) { if (performed(r) >= n) return 1; usleep(50); }
 	return performed(r) >= n;
 }
@@ -493,7 +499,7 @@ static void round_slot(round_t *r) {
 	print_round(r, 1, stuck);
 }
 
-// watchdog: a round that makes no progress for 20 s is a hang (a waiter, a dispatch_sync or an invocation never
+// watchdog (progress-based): a round that makes no progress for 60 s (x C19_SLOW) is a hang (a waiter, a dispatch_sync or an invocation never
 // completed): report it, dump what was recorded and exit with status 3
 static _Atomic long wd_round = -1; static _Atomic int wd_kind;
 static void *watchdog(void *a) {
@@ -503,7 +509,7 @@ static void *watchdog(void *a) {
 		long cur = atomic_load(&wd_round);
 		if (cur == last) idle++; else { idle = 0; last = cur; }
 		if (cur == -3) return NULL;
-		if (idle >= 40) {
+		if (idle >= 120 * g_slow) {
 			printf("HANG round=%ld kind=%d subm=%d\n", cur, atomic_load(&wd_kind), atomic_load(&wd_subm));
 			dv_dump(stdout); fflush(stdout); _exit(3);
 		}
@@ -553,6 +559,7 @@ int main(int argc, char **argv) {
 		dv_install(1, 0); _dispatch_verif_cb = c19_cb;
 		return crash_scenario(atoi(argv[2]));
 	}
+	if (getenv("C19_SLOW")) g_slow = atoi(getenv("C19_SLOW")) > 0 ? atoi(getenv("C19_SLOW")) : 1;
 	uint64_t seed = argc > 1 ? strtoull(argv[1], 0, 10) : 1; int nrounds = argc > 2 ? atoi(argv[2]) : 40;
 	int permille = argc > 3 ? atoi(argv[3]) : 150;
 	struct sigaction sa; memset(&sa, 0, sizeof sa); sa.sa_handler = on_sig; sigaction(SIGUSR1, &sa, NULL);
